@@ -9,7 +9,7 @@
 (* kind tok / disc / err / lost (text pending when EOF was returned).      *)
 (* Partition: the segments are consecutive from 0 and cover the input.     *)
 (***************************************************************************)
-EXTENDS Integers, Sequences, FiniteSets, TLC, Json, LData
+EXTENDS LexSem, TLC, Json, LData
 
 VARIABLES rid, done
 
@@ -46,14 +46,60 @@ Consecutive(segs, k, pos) ==
 RECURSIVE NBytes(_, _)
 NBytes(chars, k) == IF k > Len(chars) THEN 0 ELSE chars[k][2] + NBytes(chars, k + 1)
 
+-----------------------------------------------------------------------------
+(* Every token / discard segment must consist of text its rule can match:  *)
+(* (text accumulated by action-less fragments)* followed by a match of a   *)
+(* rule that emits that token type (or discards).  Modes are ignored (any  *)
+(* rule of any mode may be the producer), so this is a necessary condition *)
+(* that also holds after lexical errors, where the mode stack is           *)
+(* unspecified.  It catches text that was consumed without the rules'      *)
+(* consent and then glued onto a token or dropped by a @discard.           *)
+R0 == [k |-> "lit", cs |-> <<>>, neg |-> FALSE, items |-> <<>>, hassub |-> FALSE, sneg |-> FALSE, sitems |-> <<>>,
+       es |-> <<>>, name |-> ""]
+RECURSIVE SetToSeq(_)
+SetToSeq(S) == IF S = {} THEN <<>> ELSE LET x == CHOOSE x \in S : TRUE IN <<x>> \o SetToSeq(S \ {x})
+AllRules(C) == UNION {{C.modes[m].rules[r] : r \in DOMAIN C.modes[m].rules} : m \in DOMAIN C.modes}
+ExprsWith(C, eff) == {rl.expr : rl \in {rl \in AllRules(C) : Effect(rl) = eff}}
+AltOf(S) == [R0 EXCEPT !.k = "alt", !.es = SetToSeq(S)]
+SegExpr(C, producers) ==
+  LET acc == ExprsWith(C, <<"accum", 0>>)
+  IN IF acc = {} THEN AltOf(producers)
+     ELSE [R0 EXCEPT !.k = "cat", !.es = <<[R0 EXCEPT !.k = "star", !.es = <<AltOf(acc)>>], AltOf(producers)>>]
+
+RECURSIVE CharIdx(_, _, _, _)
+CharIdx(chars, b, k, off) == IF off >= b \/ k >= Len(chars) THEN k ELSE CharIdx(chars, b, k + 1, off + chars[k + 1][2])
+
+SegTextOk(C, chars, seg, ty) ==
+  LET i == CharIdx(chars, seg[2], 0, 0)
+      j == CharIdx(chars, seg[3], 0, 0)
+      text == SubSeq(chars, i + 1, j)
+      producers == IF seg[1] = "tok" THEN ExprsWith(C, <<"emit", ty>>) ELSE ExprsWith(C, <<"discard", 0>>)
+  IN producers # {} /\ Len(text) \in RuleEnds(C.macros, SegExpr(C, producers), text, 0)
+
+\* token types in the order the tok segments appear (the driver's tokens of type > 1)
+RECURSIVE TokTypes(_, _)
+TokTypes(tokens, k) == IF k > Len(tokens) THEN <<>>
+                       ELSE IF tokens[k][1] > 1 THEN <<tokens[k][1]>> \o TokTypes(tokens, k + 1) ELSE TokTypes(tokens, k + 1)
+RECURSIVE BadSegs(_, _, _, _, _, _)
+BadSegs(C, chars, segs, k, types, ti) ==
+  IF k > Len(segs) THEN {}
+  ELSE IF segs[k][1] = "tok"
+       THEN (IF ti <= Len(types) /\ SegTextOk(C, chars, segs[k], types[ti]) THEN {} ELSE {k})
+            \cup BadSegs(C, chars, segs, k + 1, types, ti + 1)
+  ELSE IF segs[k][1] = "disc"
+       THEN (IF SegTextOk(C, chars, segs[k], 0) THEN {} ELSE {k}) \cup BadSegs(C, chars, segs, k + 1, types, ti)
+  ELSE BadSegs(C, chars, segs, k + 1, types, ti)
+
 Check ==
   LET R == LRuns[rid]
       w == Walk(R.chars, R.steps, 1, 0, 0, -1, <<>>)
       n == NBytes(R.chars, 1)
       lost == \E k \in DOMAIN w.segs : w.segs[k][1] = "lost"
-      ok == w.end = "eof" /\ ~lost /\ Consecutive(w.segs, 1, 0) = n
+      badsegs == BadSegs(LCases[R.c], R.chars, w.segs, 1, TokTypes(R.tokens, 1), 1)
+      ok == w.end = "eof" /\ ~lost /\ Consecutive(w.segs, 1, 0) = n /\ badsegs = {}
   IN IF ok THEN TRUE
-     ELSE PrintT(ToJson([la |-> "bad", r |-> rid - 1, end |-> w.end, lost |-> lost, segs |-> w.segs, nbytes |-> n]))
+     ELSE PrintT(ToJson([la |-> "bad", r |-> rid - 1, end |-> w.end, lost |-> lost, segs |-> w.segs, nbytes |-> n,
+                         badsegs |-> badsegs]))
 
 Init == rid \in 1..Len(LRuns) /\ done = FALSE
 Next == ~done /\ done' = TRUE /\ rid' = rid /\ Check
